@@ -145,7 +145,7 @@ func (r *LogoutRequest) Bytes() ([]byte, error) {
 	doc := etree.NewDocument()
 	doc.SetRoot(r.Element())
 
-	buf, err := doc.WriteToBytes()
+	buf, err := documentBytes(doc)
 	if err != nil {
 		return nil, err
 	}
